@@ -1,5 +1,5 @@
 """Unit registry: which assembled Verus files exist and which properties each carries."""
-from units import expr, builder, smallslices, tables, dfa, bindings, elim, regexp, render, fmtunit, nested, minimize, indent, charcount, repeats
+from units import expr, builder, smallslices, tables, dfa, bindings, elim, regexp, render, fmtunit, nested, minimize, indent, charcount, repeats, charclass
 
 REGISTRY = {
     'expr':     lambda repo, sd, canary=False: expr.build(repo, sd, canary=canary),
@@ -26,6 +26,7 @@ REGISTRY = {
     'indent':   lambda repo, sd, canary=False: indent.build(repo, sd, canary=canary),
     'charcount': lambda repo, sd, canary=False: charcount.build(repo, sd, canary=canary),
     'repeats':  lambda repo, sd, canary=False: repeats.build(repo, sd, canary=canary),
+    'charclass': lambda repo, sd, canary=False: charclass.build(repo, sd, canary=canary),
     'trie':     lambda repo, sd, canary=False: dfa.build_trie(repo, sd, canary=canary),
     'wasm':     lambda repo, sd, canary=False: bindings.build_wasm(repo, sd, canary=canary),
     'python':   lambda repo, sd, canary=False: bindings.build_python(repo, sd, canary=canary),
@@ -34,12 +35,12 @@ REGISTRY = {
 # units whose obligations carry a property (an obligation counts for a property only if its clause is tagged with it)
 PROP_UNITS = {
     'C01': ['expr', 'elim', 'matrix', 'regexp', 'caseconv', 'split', 'escaper', 'rep', 'dfa', 'dfa_kf', 'trie', 'render', 'format', 'nested', 'charcount', 'minimize'],
-    'C02': ['expr', 'elim', 'matrix', 'regexp', 'dfa', 'minimize', 'gates', 'render', 'format', 'charcount'],
+    'C02': ['expr', 'elim', 'matrix', 'regexp', 'dfa', 'minimize', 'gates', 'render', 'format', 'charcount', 'charclass'],
     'C03': ['classify', 'gates', 'trie'],
     'C04': ['caseconv', 'regexp', 'render', 'builder'],
     'C05': ['trie', 'render', 'rep', 'splice', 'repeats', 'charcount', 'minimize'],
     'C06': ['render', 'format', 'trie', 'rep', 'nested', 'indent'],
-    'C07': ['expr', 'elim', 'matrix', 'regexp', 'builder', 'split', 'escaper', 'caseconv', 'rep', 'splice', 'gates', 'render', 'format', 'order', 'dfa', 'minimize', 'trie', 'cli', 'escape', 'classify', 'nested', 'indent', 'charcount', 'repeats'],
+    'C07': ['expr', 'elim', 'matrix', 'regexp', 'builder', 'split', 'escaper', 'caseconv', 'rep', 'splice', 'gates', 'render', 'format', 'order', 'dfa', 'minimize', 'trie', 'cli', 'escape', 'classify', 'nested', 'indent', 'charcount', 'repeats', 'charclass'],
     'C08': ['render', 'expr', 'regexp', 'format', 'indent'],
     'C09': ['tables', 'classify'],
     'C10': ['builder', 'regexp', 'gates', 'order', 'dfa'],
@@ -48,7 +49,7 @@ PROP_UNITS = {
     'C13': ['rep', 'splice', 'repeats', 'builder', 'render', 'trie'],
     'C14': ['python'],
     'C15': ['render', 'indent'],
-    'C16': ['expr', 'elim', 'matrix', 'regexp', 'dfa', 'dfa_kf', 'minimize', 'trie', 'render', 'format', 'charcount', 'repeats'],
+    'C16': ['expr', 'elim', 'matrix', 'regexp', 'dfa', 'dfa_kf', 'minimize', 'trie', 'render', 'format', 'charcount', 'repeats', 'charclass'],
     'C17': ['wasm'],
 }
 # dfa_kf holds exactly the known-finding clause (its canary would be redundant with dfa's); tables has no function with a context
